@@ -172,6 +172,10 @@ def record(sc):
             rhs[..., c] *= 1e-7 / rhs[..., c].norm(dim=-1, keepdim=True)
         elif kd == "huge":
             rhs[..., c] *= 1e8
+        elif kd in ("eigvec", "inv2"):
+            # a right-hand side in an invariant subspace of dimension 1 / 2: its Krylov space is exhausted after 1 / 2 steps
+            _, Vv = torch.linalg.eigh(A64)
+            rhs[..., c] = Vv[..., :, 0] if kd == "eigvec" else Vv[..., :, 0] + 0.5 * Vv[..., :, -1]
     rhs = rhs.to(dtype)
     if sc["nan"] == "rhs":
         rhs[..., 0, 0] = float("nan")
@@ -304,40 +308,56 @@ def record(sc):
             if fin["tsym"] and not sc["nan"] and tcheck:
                 # rows of T written after a residual has fallen below the accuracy floor are outside the property's claim (the safe divisions
                 # zero the recurrence coefficients there): the clauses are evaluated on the leading block written above the floor
-                mfloor = 0
-                for jb in range(1, T.shape[-1] + 1):
+                # ... per column: a column that has converged (an eigenvector, a vector in a small invariant subspace) must not cut the matrices
+                # of the columns that have not
+                Tfull = T
+                alive = {cc: True for cc in range(B * nc) if not zero_cols[cc]}
+                mf = {cc: 0 for cc in alive}
+                for jb in range(1, Tfull.shape[-1] + 1):
+                    if not any(alive.values()):
+                        break
                     ob = run_cg(A, rhs_arg, sc, jb, guess=guess, pre=pre, tol=0.0)
                     if ob["raised"] or ob["iters"] != jb:
                         break
                     _, rb = col_stats((ob["x"].unsqueeze(-1) if vector else ob["x"]).to(torch.float64))
-                    live_all = [cc for cc in range(B * nc) if not zero_cols[cc]]
-                    if not bool((rb[live_all] > relfloor).all()):
-                        break
-                    mfloor = jb
-                mfloor = min(mfloor + 1, T.shape[-1]) if mfloor else 0
-                T = T[..., :mfloor, :mfloor]
+                    for cc in alive:
+                        if alive[cc] and float(rb[cc]) > relfloor:
+                            mf[cc] = jb
+                        else:
+                            alive[cc] = False
+                mf = {cc: (min(v + 1, Tfull.shape[-1]) if v else 0) for cc, v in mf.items()}
+                mfloor = min(mf.values()) if mf else 0
+                T = Tfull[..., :mfloor, :mfloor]
                 live = [c for c in range(sc["n_tri"]) if kinds[c] != "zero"]
-                if live and mfloor >= 1:
-                    rz = torch.linalg.eigvalsh(T)
-                    rzl = rz[live]
+                if live and max([mf[b * nc + c] for c in live for b in range(B)] + [0]) >= 1:
                     slack = 1e-6 if dtype == torch.float64 else 1e-3
-                    fin["ritz"] = bool((rzl >= lam_lo * (1 - slack) - 1e-12).all() and (rzl <= lam_hi * (1 + slack)).all())
+                    ritz_ok = True
+                    for c in live:
+                        for b in range(B):
+                            m_cb = mf[b * nc + c]
+                            if m_cb >= 1:
+                                rz = torch.linalg.eigvalsh(Tfull.reshape(sc["n_tri"], B, *Tfull.shape[-2:])[c, b, :m_cb, :m_cb])
+                                ritz_ok = ritz_ok and bool((rz >= lam_lo * (1 - slack) - 1e-12).all() and (rz <= lam_hi * (1 + slack)).all())
+                    fin["ritz"] = ritz_ok
                     # independent Lanczos on the (preconditioned) operator from the normalised right-hand side
                     if P is None:
                         worst, quad = 0.0, None
                         for c in live:
                             for b in range(B):
+                                m_cb = mf[b * nc + c]
+                                if m_cb < 1:
+                                    continue
                                 Mb = M64.reshape(B, n, n)[b]
                                 z = rhs.to(torch.float64).reshape(B, n, nc)[b, :, c]
                                 z = z / z.norm()
-                                al, be = lanczos_ref(Mb, z, T.shape[-1])
-                                Tb = T.reshape(sc["n_tri"], B, *T.shape[-2:])[c, b]
+                                al, be = lanczos_ref(Mb, z, m_cb)
+                                Tb = Tfull.reshape(sc["n_tri"], B, *Tfull.shape[-2:])[c, b, :m_cb, :m_cb]
                                 m = min(len(al), Tb.shape[-1], 8)
                                 d = max(abs(float(Tb[i, i]) - al[i]) for i in range(m))
                                 if m > 1:
                                     d = max(d, max(abs(abs(float(Tb[i + 1, i])) - be[i]) for i in range(min(m - 1, len(be)))))
                                 worst = max(worst, d / lam_hi)
-                                if T.shape[-1] == n and sc["kappa"] <= 1e4 and sc["family"] != "clustered":
+                                if m_cb == n and sc["kappa"] <= 1e4 and sc["family"] != "clustered":
                                     w, V = torch.linalg.eigh(Tb)
                                     wa, Va = torch.linalg.eigh(Mb)
                                     if (w > 0).all():
@@ -352,27 +372,29 @@ def record(sc):
                             fin["lanczos"] = lg(worst)
                         # does the independent recurrence break down (coupling < 1e-5) inside the budget?  If not, the budget must be honoured
                         need = min(sc["max_tri"], n, sc["max_iter"] - 1)
-                        ok = True
+                        # (one such column is enough: the matrices of all columns are written by the same loop, so the recording has to go on as
+                        #  long as ANY column still produces coefficients)
+                        good = []
                         for c in live:
                             for b in range(B):
                                 z = rhs.to(torch.float64).reshape(B, n, nc)[b, :, c]
                                 al, be = lanczos_ref(M64.reshape(B, n, n)[b], z / z.norm(), need + 1)
-                                if len(al) < min(need + 1, n) or (be and min(be[:max(0, need - 1)] or [1.0]) < 1e-5 * lam_hi):
-                                    ok = False
+                                if not (len(al) < min(need + 1, n) or (be and min(be[:max(0, need - 1)] or [1.0]) < 1e-5 * lam_hi)):
+                                    good.append(b * nc + c)
+                        ok = bool(good)
                         # (the CG recurrence stops producing coefficients once a residual falls below the accuracy floor: the safe division zeroes beta)
                         not_frozen = False
                         if ok:
-                            not_frozen = True
+                            still = set(good)
                             for jb in range(max(1, need - 3), need + 1):      # residuals of the iterates just before the budget ends (tolerance 0: no early exit)
                                 ob = run_cg(A, rhs_arg, sc, jb, guess=guess, pre=pre, tol=0.0)
                                 if ob["raised"] or ob["iters"] != jb:
-                                    not_frozen = False
+                                    still = set()
                                     break
                                 Xb = (ob["x"].unsqueeze(-1) if vector else ob["x"]).to(torch.float64)
                                 _, rb = col_stats(Xb)
-                                if not bool((rb > relfloor).all()):
-                                    not_frozen = False
-                                    break
+                                still = {cc for cc in still if float(rb[cc]) > relfloor}
+                            not_frozen = bool(still)
                         fin["budget_applies"] = bool(ok and not_frozen and dtype == torch.float64 and sc["kappa"] <= 1e4)
                         if quad is not None:
                             fin["quad"] = lg(quad)
@@ -436,6 +458,18 @@ def scenarios(tier, seed):
                         out.append(dict(id=100000 + k, seed=seed * 31 + k, n=n, family=fams[k % 3], kappa=kap, batch=[[], [2]][k % 2], ncols=1 + k % 2, vector=False,
                                         cols=["normal"] * (1 + k % 2), guess="none", precond="none", tol=tol, max_iter=max_iter, n_tri=1, max_tri=min(max_tri, max_iter), by_size=False,
                                         dt="f64", eps=None, nan="", budgets=min(max_iter, 45), scale=1.0, limit=False))
+    # a fixed block aimed at columns of different Krylov dimension: a generic column next to one in a small invariant subspace; the Lanczos
+    # matrix of the generic column must still be complete
+    k = 0
+    for n in (6, 10, 14):
+        for kd in ("eigvec", "inv2", "zero"):
+            for bt in ([], [2]):
+                k += 1
+                if tier == "quick" and k % 2:
+                    continue
+                out.append(dict(id=200000 + k, seed=seed * 37 + k, n=n, family=fams[k % 3], kappa=[10, 100][k % 2], batch=bt, ncols=2, vector=False,
+                                cols=["normal", kd], guess="none", precond="none", tol=1e-2, max_iter=2 * n + 10, n_tri=2, max_tri=n - 2, by_size=False,
+                                dt="f64", eps=None, nan="", budgets=min(2 * n + 10, 45), scale=1.0, limit=False))
     return out
 
 
